@@ -7,10 +7,11 @@ CONSTANTS
   Handles <- T_Handles
   DepSets <- T_DepSets
   HandlerSeqs <- T_HSeqs
-  UpRegs <- T_UpRegs
+  UpProgs <- T_UpProgs
+  CRProg <- T_CR
   QuitOn = TRUE
   QuitDeferred = FALSE
-  DefCap = 3
+  DefCap = 2
   D = 14
 INIT Init
 NEXT Next
